@@ -2,9 +2,9 @@
    pack_ok, expected result of unpack), the proofs are in Proofs.PackBits / PackRoundtrip / PackRoundtripGraph /
    PackRoundtripMol / PackLayout / PackElements / PackProofs / PackRxn / PackRxnLen / F16Proofs. *)
 From Coq Require Import ZArith List Bool.
-From Model Require Import PyBase Pack PackSpec F16.
+From Model Require Import PyBase Pack PackSpec PackApi F16.
 From Gen Require Import Elements.
-From Proofs Require Import PackBits PackRoundtrip PackRoundtripGraph PackRoundtripMol PackLayout PackElements PackProofs PackRxn PackRxnLen F16Proofs.
+From Proofs Require Import PackBits PackRoundtrip PackRoundtripGraph PackRoundtripMol PackLayout PackElements PackApiProofs PackProofs PackRxn PackRxnLen F16Proofs.
 Import ListNotations.
 Open Scope Z_scope.
 
@@ -39,6 +39,19 @@ Theorem C10_tabulated_isotopes_ok : forall e, In e elements ->
   1 <= e_num e <= 118 /\ iso_ok (e_num e) None = true /\ forall k, In k (keys (e_dist e)) -> iso_ok (e_num e) (Some k) = true.
 Proof. exact tabulated_isotopes_ok. Qed.
 Print Assumptions C10_tabulated_isotopes_ok.
+
+(* the Python level limits check of MoleculeContainer.pack(check=True) passes for every non-empty molecule within the
+   format limits (so the API call is the .pyx packer) and raises ValueError for an empty molecule, an atom number above
+   4095 or more than 15 neighbours *)
+Theorem C10_mol_pack_within_limits : forall m, pack_ok m = true -> pm_atoms m <> [] -> mol_pack true m = pack m.
+Proof. exact mol_pack_within_limits. Qed.
+Print Assumptions C10_mol_pack_within_limits.
+
+Theorem C10_mol_pack_rejects : forall m,
+  pm_atoms m = [] \/ (exists a, In a (pm_atoms m) /\ (4095 < pa_n a \/ (15 < length (pa_nbrs a))%nat)) ->
+  mol_pack true m = Err ValueError.
+Proof. exact mol_pack_rejects. Qed.
+Print Assumptions C10_mol_pack_rejects.
 
 (* LAYOUT, bit for bit: for every molecule within the format limits the bytes pack writes are the bytes of the published
    version 2 layout (PackSpec.layout_v2: ONE bit stream written from the docstring -- 8 bit 0x02, 12 bit atom count,
